@@ -46,6 +46,7 @@ let event_of (line : string) : event option =
   | ["ap.raftdone.after"; a] -> Some (EvApRaftDone (n a))
   | ["ap.trigger.before"; a; s] -> Some (EvApTriggerBefore (n a, n s))
   | ["ap.trigger.after"; a; s] -> Some (EvApTriggerAfter (n a, n s))
+  | "ck.cacheflush.after" :: _ -> Some EvCkFlush
   | ["ck.save.before"] -> Some EvCkSaveBefore
   | ["ck.save.after"] -> Some EvCkSaveAfter
   | "ck.purge.before" :: _ -> Some EvCkPurgeBefore
@@ -179,7 +180,7 @@ let () =
     match split_on '\t' line with
     | id :: "D" :: cfg :: runs :: _ ->
       let c = (match split_on ',' cfg with
-               | [kw; kb; o] -> { keep_wal = nat_of_int (int_of_string kw); keep_backup = nat_of_int (int_of_string kb); opt_fsync = (o = "1"); persist_first = true; clean_orphans = true }
+               | [kw; kb; o] -> { keep_wal = nat_of_int (int_of_string kw); keep_backup = nat_of_int (int_of_string kb); opt_fsync = (o = "1"); persist_first = true; clean_orphans = true; flush_first = true }
                | _ -> failwith "bad config") in
       let raw = Str.split_delim (Str.regexp_string " | ") runs in
       let out = ref [] in
